@@ -1732,7 +1732,7 @@ Proof.
                 let '(h10, outs3) :=
                   match r_transient r with
                   | [] => (publish h7 (SubjRoom (fst k) (snd k)) (ARoomEvent (SJoin [(sid, if s_user s =? 0 then su else s_user s)])), [])
-                  | _ :: _ => send_session (publish h7 (SubjRoom (fst k) (snd k)) (ARoomEvent (SJoin [(sid, if s_user s =? 0 then su else s_user s)]))) sid (STransient 0 0)
+                  | (_ :: _) as d => send_session (publish h7 (SubjRoom (fst k) (snd k)) (ARoomEvent (SJoin [(sid, if s_user s =? 0 then su else s_user s)]))) sid (STransient (TInit d))
                   end in
                 (publish h10 (SubjBackendRoom (fst k) (snd k)) (ASessionJoined sid (is_internal (s_kind s))), o1 ++ outs2 ++ outs3)
             | None => (h7, o1 ++ outs2)
@@ -1743,7 +1743,7 @@ Proof.
                 let '(h10, outs3) :=
                   match r_transient r with
                   | [] => (publish h7 (SubjRoom (fst k) (snd k)) (ARoomEvent (SJoin [(sid, if s_user s =? 0 then su else s_user s)])), [])
-                  | _ :: _ => send_session (publish h7 (SubjRoom (fst k) (snd k)) (ARoomEvent (SJoin [(sid, if s_user s =? 0 then su else s_user s)]))) sid (STransient 0 0)
+                  | (_ :: _) as d => send_session (publish h7 (SubjRoom (fst k) (snd k)) (ARoomEvent (SJoin [(sid, if s_user s =? 0 then su else s_user s)]))) sid (STransient (TInit d))
                   end in
                 (publish h10 (SubjBackendRoom (fst k) (snd k)) (ASessionJoined sid (is_internal (s_kind s))), o1 ++ outs2 ++ outs3)
             | None => (h7, o1 ++ outs2)
@@ -1799,9 +1799,9 @@ Proof.
         + exact Hm7.
         + unfold h9. rewrite bus_publish, Hb7. reflexivity.
         + rewrite Hc7. lia. }
-    assert (Q : quiet h9 (match r_transient r with [] => (h9, []) | _ :: _ => send_session h9 sid (STransient 0 0) end)).
+    assert (Q : quiet h9 (match r_transient r with [] => (h9, []) | (_ :: _) as d => send_session h9 sid (STransient (TInit d)) end)).
     { destruct (r_transient r); [apply quiet_ret|now apply quiet_send_irr]. }
-    destruct (match r_transient r with [] => (h9, []) | _ :: _ => send_session h9 sid (STransient 0 0) end) as [h10 o3].
+    destruct (match r_transient r with [] => (h9, []) | (_ :: _) as d => send_session h9 sid (STransient (TInit d)) end) as [h10 o3].
     destruct Q as [E10 I10]. cbn [fst snd] in *.
     (* the ghost state: the leave outputs and the transient notice change nothing *)
     apply (Jg_geq _ _ _ (gouts g7 o3)).
@@ -2082,7 +2082,7 @@ Proof. intros Hf. induction l as [|a l IH]; intros h HJ; cbn [fold_left]; auto. 
 Lemma Jg_do_api xr xs h g b room q : Jg xr xs h g ->
   Jg xr xs (fst (do_api h b room q)) (gouts g (snd (do_api h b room q))).
 Proof.
-  intros HJ. unfold do_api. cbv zeta. destruct q as [|users rsessions|tag|l|l|ic|tag|ok]; try (pubonly).
+  intros HJ. unfold do_api. cbv zeta. destruct q as [|users rsessions|tag|l|l|ic|tag|ok|del key val]; try (pubonly).
   - cbn [fst snd]. rewrite gouts_nil. apply Jg_fold_publish.
     + intros hh rs Hh. destruct (aget (h_rs2 hh) (1000000 + rs)); [|exact Hh]. now apply Jg_publish_neutral.
     + apply Jg_fold_publish; [|exact HJ]. intros hh u Hh. now apply Jg_publish_neutral.
@@ -2292,6 +2292,19 @@ Proof.
   pose proof (IH h1) as Q2. destruct (fold_sessions h1 l f) as [h2 o2]. apply (quiet_seq h (h1, o1) (h2, o2) Q1 Q2).
 Qed.
 
+(* the room's transient data: the room keeps its members, the notices are read by no view *)
+Lemma quiet_transient_update h k r del key val : room_of h k = Some r -> quiet h (transient_update h k r del key val).
+Proof.
+  intros Hr. unfold transient_update.
+  assert (Hn : forall d m, quiet h (transient_notify h k r d m)).
+  { intros d m. unfold transient_notify.
+    eapply quiet_pre; [apply (same_room_update h k r (room_set_transient r d)); [exact Hr|reflexivity]|].
+    apply quiet_fold_sessions. intros hh x. now apply quiet_send_irr. }
+  destruct (del || N.eqb val 0).
+  - destruct (aget (r_transient r) key); [apply Hn|apply quiet_ret].
+  - destruct (aget (r_transient r) key) as [v|]; [destruct (N.eqb v val); [apply quiet_ret|apply Hn]|apply Hn].
+Qed.
+
 Ltac jerr := cbn [fst snd]; apply Jg_irr; [reflexivity|assumption].
 
 Lemma J_with_session h g c f : WF h -> J h g ->
@@ -2374,16 +2387,9 @@ Proof.
     apply (Jg_quiet none2 no1 h g); [apply quiet_do_mcudone|exact HJ].
   - (* transient data *)
     apply J_with_session; auto. intros cn sid s _ _ Hs _.
-    destruct (s_room s) as [k|]; [|jerr]. destruct (negb (allowed_transient s)); [jerr|].
+    destruct (s_room s) as [k|]; [|jerr]. destruct (2 <=? kindn); [jerr|]. destruct (negb (allowed_transient s)); [jerr|].
     destruct (room_of h k) as [r|] eqn:Hr; [|exact HJ].
-    assert (Hq : forall tr kk, quiet h (fold_sessions (set_rooms h (pset (h_rooms h) k (mkroom (r_members r) (r_incall r) (r_sessdata r) tr (r_props r))))
-               (filter (fun m => match get_sess h m with Some t => negb (is_virtual (s_kind t)) | None => false end) (r_members r))
-               (fun hh m => send_session hh m (STransient kk key)))).
-    { intros tr kk. eapply quiet_pre; [apply (same_room_update h k r (mkroom (r_members r) (r_incall r) (r_sessdata r) tr (r_props r))); [exact Hr|reflexivity]|].
-      apply quiet_fold_sessions. intros hh x. now apply quiet_send_irr. }
-    destruct (N.eqb kindn 0).
-    + destruct (aget (r_transient r) key) as [v|]; [destruct (N.eqb v val); [exact HJ|]|]; (apply (Jg_quiet none2 no1 h g); [apply Hq|exact HJ]).
-    + destruct (aget (r_transient r) key) as [v|]; [|exact HJ]. apply (Jg_quiet none2 no1 h g); [apply Hq|exact HJ].
+    apply (Jg_quiet none2 no1 h g); [now apply quiet_transient_update|exact HJ].
   - (* deliver: nothing is queued *)
     unfold deliver_at. rewrite (Hd pos eq_refl). destruct (N.to_nat pos); exact HJ.
   - (* hello aborted *)
@@ -2943,7 +2949,7 @@ Qed.
 Lemma J_room_request h g k q : WF h -> J h g -> J (fst (room_request h k q)) (gouts g (snd (room_request h k q))).
 Proof.
   unfold WF, J. intros W HJ. unfold room_request. destruct (room_of h k) as [r|] eqn:Hr; [|exact HJ].
-  destruct q as [|users rs|tag|l|l|ic|tag|ok]; [| | | | | | |exact HJ].
+  destruct q as [|users rs|tag|l|l|ic|tag|ok|del key val]; [| | | | | | |exact HJ|apply (Jg_quiet none2 no1 h g); [now apply quiet_transient_update|exact HJ]].
   - (* delete *)
     match goal with |- context [fold_sessions h ?int ?f] => set (internals := int); set (fdel := f) end.
     assert (Q0 : quiet h (fold_sessions h internals fdel)) by (apply quiet_fold_sessions; intros hh x; now apply quiet_send_irr).
